@@ -22,6 +22,8 @@ QUICK_CFGS = [
     "proxycache[pre=all;cache=20]", "proxycache[pre=half]", "proxycache[cache=20]", "proxycache", "union(gate,gate,gate)", "union(localdisk,filesvfs)",
     "replica(shard,shard)", "overlay(gate,blobpacked)", "namespace(encrypt)", "proxycache[cache=80](replica)",
     "proxycache(gate[nosub=1])",
+    # a cache STORE that never evicts by itself (as a localdisk cache): only proxycache's own budget removes from it
+    "proxycache[cache=20;gatecache=1]",
 ]
 THOROUGH_EXTRA = [
     "diskpacked[kv=leveldb]", "diskpacked[kv=kv]", "diskpacked[kv=sqlite]", "diskpacked[max=300;kv=leveldb]",
@@ -30,6 +32,7 @@ THOROUGH_EXTRA = [
     "cond(replica,shard)", "replica(overlay,namespace)", "proxycache[cache=20](shard)", "union(gate,gate)",
     "blobpacked(gate,diskpacked)", "encrypt(shard,localdisk)", "namespace(namespace)", "overlay(overlay,gate)",
     "replica(blobpacked,encrypt)", "proxycache[cache=20](overlay)", "shard(filesvfs,memory)",
+    "proxycache[pre=half;cache=80;gatecache=1]", "proxycache[cache=20;gatecache=1](replica)",
 ]
 
 
